@@ -123,6 +123,11 @@ func Fail(o string) error {
 		return errors.New("scripted plain failure")
 	case "wrapped":
 		return fmt.Errorf("scripted context: %w", errors.New("inner failure"))
+	case "wraprpc":
+		// an RpcError that is only reachable through Unwrap is "any other error" on the wire
+		return fmt.Errorf("lookup failed: %w", &vgirpc.RpcError{Type: "ValueError", Message: "inner", Kind: "inner_kind"})
+	case "wraptyped":
+		return fmt.Errorf("open session: %w", &vgirpc.ServerDrainingError{})
 	case "custom":
 		return customErr{code: 7}
 	case "panic":
